@@ -1913,7 +1913,8 @@ class Interp:
             return out
         vid, tn = d[1], d[2]
         lo, hi = D.get_iv(st, vid)
-        dinfo = st.discr.get(vid)
+        # (a discriminant that is already one constant is a shared constant value: it carries no link to a place)
+        dinfo = None if vid in D.CONSTVAL else st.discr.get(vid)
         if lo != hi:
             st.tested = st.tested | ({('discr', dinfo[1])} if dinfo is not None else {vid})
         cases = [(self.signed_case(v, tn), tgt) for v, tgt in t['cases']]
